@@ -135,33 +135,5 @@ def check(ctx):
                 sites=[etc.where()], site_key=lb.defq, witness=None if p is None else {"path": lb.describe_path(p)})
         gas = ctx.cmp_tests(lb, "Gt", lhs="call:fuel_core_types::blockchain::transaction::TransactionExt::max_gas", rhs="field:fuel_core_executor::executor::ExecutionData.used_gas", depth=2)
         ctx.guarded("4.no-execution-beyond-gas-limit", lb, [etc], gas, truth=False, detail="a transaction that does not fit the remaining gas is skipped, not executed")
-
-    # -- 6. no transaction-level rejection after the first event of the transaction has been recorded --
-    with ctx.clause("6.no-rejection-after-events"):
-        EXQ = "fuel_core_executor::executor::BlockExecutor"
-        b = ctx.body_with(f"{EXQ}::execute_chargeable_transaction", f"{EXQ}::spend_input_utxos")
-        sp = ctx.one_call(b, f"{EXQ}::spend_input_utxos")
-        after = b.reach([sp.target]) if sp.target is not None else set()
-        # events / statuses are appended to the block-wide ExecutionData, which is NOT rolled back when the producer skips
-        # the transaction: after spend_input_utxos only storage failures (fatal for producer and validator alike) may occur
-        rej = [(bb, s) for bb, j, s in b.stmts() if bb in after and bb in b.live and s["k"] == "assign" and s["rv"]["k"] == "agg" and
-               (s["rv"].get("adt") or "").endswith("::ExecutorError")]
-        ctx.expect_sites("6.no-executor-error-after-first-event", [f"{s['rv'].get('variant')} at line {s.get('line')}" for _, s in rej], exactly=0,
-                         what="ExecutorError constructed in execute_chargeable_transaction after spend_input_utxos (a skip at that point leaves the events of the skipped transaction in the producer's result, "
-                              "which validation of the same block does not report)")
-        # every error exit after that point is the `?` of one of the storage steps
-        allowed = ("spend_input_utxos", "persist_output_utxos", "insert", "update_execution_data")
-        o6 = Origins(b, 0)
-        odd = []
-        for c in b.calls:
-            if c.bb in after and c.bb in b.live and c.name == "from_residual":
-                srcs = {str(v).split("::")[-1] for k, v in o6.atoms(c.args[0]) if k == "call"} - {"branch", "from_residual"}
-                if not srcs or not srcs <= set(allowed):
-                    odd.append(f"`?` at {c.where()} propagates {sorted(srcs)}")
-        errb = [bb for bb, j, s in b.stmts() if bb in after and bb in b.live and s["k"] == "assign" and s["rv"]["k"] == "agg" and s["rv"].get("adt") == "core::result::Result" and s["rv"].get("variant") == "Err"]
-        odd += [f"Err(..) built in bb{bb}" for bb in errb]
-        ctx.expect_sites("6.only-storage-failures-after-first-event", odd, exactly=0,
-                         what="error exit after spend_input_utxos that is not the `?` of persist_output_utxos / ProcessedTransactions.insert / update_execution_data")
-        dup = ctx.one_call(ctx.body_with(f"{EXQ}::execute_transaction", f"{EXQ}::check_tx_is_not_duplicate"), f"{EXQ}::check_tx_is_not_duplicate")
-        ctx.add("6.duplicate-check-before-any-effect", "ORDER", all(dup.body.path([c.target], [dup.bb]) is None for c in dup.body.calls if c.bb in dup.body.live and c.name.startswith("execute_") and c.target is not None),
-                "the duplicate-id rejection happens before the transaction is executed", sites=[dup.where()], site_key="dup")
+    from exec_common import no_rejection_after_events
+    no_rejection_after_events(ctx, "6")
